@@ -1107,6 +1107,39 @@ def strata_catalogue(tables, texts):  # pylint: disable=too-many-locals,too-many
 		return Edit('', path, lines[:i] + [new] + lines[i + 1:], 'Whitespaces', 'Comma should be followed by a space', i + 1, 'stratum comma after an empty string literal')
 	add('whitespace: comma not followed by a space [after an empty string literal]', '"", ', comma_after_empty_literal)
 
+	def comma_beside_slashes_literal(rng, path, lines):
+		# `EXPECT_EQ("mongodb://host", x)`: a comma in the code of a line whose string literal holds `//` (the linter strips `//.*` first)
+		candidates = []
+		for i in range(21, len(lines)):
+			line = lines[i]
+			if '//' not in line or line.count('"') % 2 or '\\' in line or "'" in line or '/*' in line:
+				continue
+			inside, holds, after = False, False, None   # after: column where the first literal that holds // ends
+			for position, char in enumerate(line):
+				if char == '"':
+					inside = not inside
+					if not inside and holds and after is None:
+						after = position
+				elif line.startswith('//', position):
+					if not inside:
+						after = None
+						break
+					holds = True
+			if after is None:
+				continue
+			inside = False
+			for position, char in enumerate(line[:-2]):
+				if char == '"':
+					inside = not inside
+				elif char == ',' and not inside and position > after and line[position + 1] == ' ' and line[position + 2] not in ' )"':
+					candidates.append((i, position))
+		if not candidates:
+			return None
+		i, position = rng.choice(candidates)
+		new = lines[i][:position + 1] + lines[i][position + 2:]
+		return Edit('', path, lines[:i] + [new] + lines[i + 1:], 'Whitespaces', 'Comma should be followed by a space', i + 1, 'stratum comma beside a string literal that holds //')
+	add('whitespace: comma not followed by a space [beside a literal holding //]', '://', comma_beside_slashes_literal)
+
 	line_family('whitespace: tabs in empty line', 'Whitespaces', 'Tabs in empty line', ['blank line'], lambda l, k, r: '\t')
 	LINE_KINDS['blank line after the licence header'] = (None, lambda lines, i: i == 20 and lines[i] == '' and lines[0] == '/**')
 	line_family('whitespace: tabs in empty line', 'Whitespaces', 'Tabs in empty line', ['blank line after the licence header'], lambda l, k, r: '\t')
